@@ -9,16 +9,17 @@ import (
 )
 
 type Layout struct {
-	Indent    string `json:"indent"`     // one indentation unit
-	IndentIf  bool   `json:"indent_if"`  // indent the bodies of if clauses
-	CRLF      bool   `json:"crlf"`       // \r\n line ends
-	FinalNL   bool   `json:"final_nl"`   // newline after the last ===
-	Deco      uint64 `json:"deco"`       // seed of the decoration PRNG; 0 = no decoration
-	DecoPct   int    `json:"deco_pct"`   // chance of a blank/comment line before a statement
-	TrailPct  int    `json:"trail_pct"`  // chance of a trailing comment
-	CmdSpaces bool   `json:"cmd_spaces"` // extra spaces inside << >>
-	DeepDeco  bool   `json:"deep_deco"`  // decoration lines also inside indented bodies
-	MixTabs   bool   `json:"mix_tabs"`   // unit is 8 columns; each line writes it either as 8 spaces or as one tab
+	Indent    string `json:"indent"`            // one indentation unit
+	IndentIf  bool   `json:"indent_if"`         // indent the bodies of if clauses
+	CRLF      bool   `json:"crlf"`              // \r\n line ends
+	FinalNL   bool   `json:"final_nl"`          // newline after the last ===
+	Deco      uint64 `json:"deco"`              // seed of the decoration PRNG; 0 = no decoration
+	DecoPct   int    `json:"deco_pct"`          // chance of a blank/comment line before a statement
+	TrailPct  int    `json:"trail_pct"`         // chance of a trailing comment
+	CmdSpaces bool   `json:"cmd_spaces"`        // extra spaces inside << >>
+	DeepDeco  bool   `json:"deep_deco"`         // decoration lines also inside indented bodies
+	MixTabs   bool   `json:"mix_tabs"`          // unit is 8 columns; each line writes it either as 8 spaces or as one tab
+	HdrSep    int    `json:"hdr_sep,omitempty"` // header lines: 0 "key: value", 1 "key:value", 2 "key:    value"
 }
 
 func genLayout(tp *Tape) Layout {
@@ -50,6 +51,9 @@ func genLayout(tp *Tape) Layout {
 		l.DeepDeco = true
 	}
 	l.CmdSpaces = tp.Chance(15, "cmdspaces")
+	if tp.Chance(20, "hdrsep") {
+		l.HdrSep = tp.Int(1, 2, "hdrsepkind")
+	}
 	return l
 }
 
@@ -278,17 +282,18 @@ func (r *renderer) stmt(s *Stmt, depth int) {
 func (r *renderer) node(n *Node) {
 	r.deco(0)
 	hdrs := make([]string, 0, 3)
+	sep := []string{": ", ":", ":    "}[r.l.HdrSep%3]
 	for _, e := range n.Extra {
-		hdrs = append(hdrs, e[0]+": "+e[1])
+		hdrs = append(hdrs, e[0]+sep+e[1])
 	}
 	if n.Tracking != "" {
-		hdrs = append(hdrs, "tracking: "+n.Tracking)
+		hdrs = append(hdrs, "tracking"+sep+n.Tracking)
 	}
 	pos := n.TitlePos
 	if pos > len(hdrs) {
 		pos = len(hdrs)
 	}
-	hdrs = append(hdrs[:pos], append([]string{"title: " + n.Title}, hdrs[pos:]...)...)
+	hdrs = append(hdrs[:pos], append([]string{"title" + sep + n.Title}, hdrs[pos:]...)...)
 	for _, h := range hdrs {
 		r.sb.WriteString(h + r.nl)
 	}
